@@ -18,12 +18,23 @@ pub struct Checked {
     pub dsp_calls: usize,
     pub steps: u64,
     pub state_ops: u64,
+    pub syntax_error: bool,
 }
 
 pub fn check(c: &Case) -> Checked {
-    let mut res = Checked { violations: vec![], accepted: vec![], rejected: false, dsp_calls: 0, steps: 0, state_ops: 0 };
+    let mut res = Checked { violations: vec![], accepted: vec![], rejected: false, dsp_calls: 0, steps: 0, state_ops: 0, syntax_error: false };
     let inp = input_fn(c.input_seed, c.finite_inputs);
     let path = c.path.as_ref().map(PathBuf::from);
+    // texts with syntax errors are C04's business (C03 is about programs the checker accepts)
+    let src = c.src.clone();
+    let p2 = path.clone();
+    match crate::util::catch(move || !mimium_lang::compiler::parser::parse_to_expr(&src, p2).2.is_empty()) {
+        Ok(true) | Err(_) => {
+            res.syntax_error = true;
+            return res;
+        }
+        Ok(false) => {}
+    }
     let mut vm_accepts = false;
     for b in [Backend::Vm, Backend::Wasm] {
         let steps0 = mimium_lang::verif::total_steps();
@@ -139,6 +150,9 @@ fn exec(c: &Case, idx: usize, out: &mut Out) -> bool {
     if r.rejected {
         out.count("rejected_with_diagnostics", 1);
     }
+    if r.syntax_error {
+        out.count("syntax_error_out_of_scope", 1);
+    }
     out.count("dsp_calls", r.dsp_calls as u64);
     out.count("vm_instructions_executed", r.steps);
     out.count("state_accesses_bounds_checked", r.state_ops);
@@ -228,7 +242,7 @@ pub fn meta(args: &Args) -> Value {
         "rule": "cases: (a) generated well-typed programs with the danger features on (state in branches unless quarantined, >256 locals, deep stateful call trees, nasty dsp inputs); (b) near-miss text mutations of (a) that change a type/arity somewhere; (c) shipped sources and operator/constant mutations of them (scheduler on). Each case is compiled for VM and WASM and runs main + n dsp calls with the hook bounds assertions on (state/global/upvalue/closure/delay-size) and a logical instruction budget. Refuting: panic in any phase, hook assertion, step budget, WASM trap, invalid WASM module, WASM code generator refusing a type-checked program, dsp returning a word count other than declared. Rejection with diagnostics is fine. Non-trivial = at least one back end accepted and ran dsp; distinct = hash of the text + run parameters.",
         "assumptions": ["bounds are observed at the hooked VM sites; WASM memory safety is wasmtime's sandbox, there the observable is trap/host panic/-1", "programs whose source-level meaning diverges (unguarded recursion) are not generated", "any number of dsp calls = n <= 64 in quick, 4096 for a subset in thorough"],
         "floor": {"quick": 100, "thorough": 3000},
-        "case_timeout_s": 120,
+        "case_timeout_s": 40,
         "hang_is_violation": true,
         "n_quick": args.cases(600, 40000),
     })
